@@ -5,7 +5,7 @@ use crate::refmodel as r;
 use crate::report::{Collector, Ctx};
 use crate::spaces::{self, Case, Family, Space};
 use crate::subject::{Opts, Outcome};
-use crate::sweep::{no_extra, run_space};
+use crate::sweep::{no_extra, run_histories, run_space};
 
 const A_LOCAL: &str = "A-LOCAL: payload content is covered by structured families over every length plus the complete per-group value x bit-alignment enumeration (S_group) plus every input of <= 2 bytes jointly (S_small); two payload symbols interacting other than through their own packing group, the XOR-linear EC computation or mask selection would escape";
 const A_REF: &str = "reference model R (harness/src/refmodel.rs) is written from ISO/IEC 18004 independently of fast_qr; validated at setup against the unrelated `qrcode` crate and by its own enc/dec round trip (fqv selfcheck)";
@@ -57,6 +57,7 @@ pub fn c01(ctx: &Ctx) -> Collector {
     run_space(&col, 17, &spaces::s_order(ctx.tier.thorough()), &p, true, &no_extra);
     run_space(&col, 18, &s_len_utf8(ctx.tier.thorough()), &p, true, &no_extra);
     run_space(&col, 19, &spaces::s_forced_dense(ctx.tier.thorough()), &p, true, &no_extra);
+    run_histories(&col, 22, &p, ctx.tier.thorough());
     if ctx.tier.thorough() {
         // the complete (length x forced version) triangle of C05, judged here for this property
         run_space(&col, 21, &s_forced_versions(true), &p, true, &no_extra);
@@ -77,6 +78,8 @@ pub fn c02(ctx: &Ctx) -> Collector {
     }
     run_space(&col, 10, &spaces::s_cell(ctx.tier.thorough()), &p, true, &no_extra);
     run_space(&col, 11, &spaces::s_cap_families(ctx.tier.thorough()), &p, true, &no_extra);
+    run_space(&col, 12, &spaces::s_forced_dense(ctx.tier.thorough()), &p, true, &no_extra);
+    run_histories(&col, 13, &p, ctx.tier.thorough());
     crate::props::c02x::corruption(ctx, &col);
     col
 }
@@ -89,6 +92,7 @@ pub fn c03(ctx: &Ctx) -> Collector {
     run_space(&col, 0, &spaces::s_cell(ctx.tier.thorough()), &p, true, &no_extra);
     run_space(&col, 1, &spaces::s_opt(ctx.tier.thorough()), &p, true, &no_extra);
     run_space(&col, 2, &spaces::s_len(Family::Ctr, if ctx.tier.thorough() { 7200 } else { 0 }), &p, true, &no_extra);
+    run_histories(&col, 4, &p, ctx.tier.thorough());
     if ctx.tier.thorough() {
         run_space(&col, 3, &spaces::s_len(Family::Hi, 7200), &p, true, &no_extra);
     }
@@ -104,6 +108,7 @@ pub fn c04(ctx: &Ctx) -> Collector {
     run_space(&col, 1, &spaces::s_cell(ctx.tier.thorough()), &p, true, &no_extra);
     run_space(&col, 2, &spaces::s_small(&[None], false), &p, true, &no_extra);
     run_space(&col, 4, &spaces::s_order(ctx.tier.thorough()), &p, true, &no_extra);
+    run_histories(&col, 5, &p, ctx.tier.thorough());
     if ctx.tier.thorough() {
         run_space(&col, 3, &spaces::s_len(Family::Ctr, 7200), &p, true, &no_extra);
     }
@@ -249,6 +254,7 @@ pub fn c06(ctx: &Ctx) -> Collector {
     run_space(&col, 17, &spaces::s_order(ctx.tier.thorough()), &p, true, &no_extra);
     run_space(&col, 18, &s_len_utf8(ctx.tier.thorough()), &p, true, &no_extra);
     run_space(&col, 19, &spaces::s_forced_dense(ctx.tier.thorough()), &p, true, &no_extra);
+    run_histories(&col, 22, &p, ctx.tier.thorough());
     if ctx.tier.thorough() {
         // the complete (length x forced version) triangle of C05, judged here for this property
         run_space(&col, 21, &s_forced_versions(true), &p, true, &no_extra);
@@ -462,6 +468,7 @@ pub fn c15(ctx: &Ctx) -> Collector {
     run_space(&col, 0, &spaces::s_cell(ctx.tier.thorough()), &p, true, &no_extra);
     run_space(&col, 1, &spaces::s_opt(ctx.tier.thorough()), &p, true, &no_extra);
     run_space(&col, 2, &spaces::s_small(&[None], false), &p, true, &no_extra);
+    run_histories(&col, 4, &p, ctx.tier.thorough());
     if ctx.tier.thorough() {
         run_space(&col, 3, &spaces::s_len(Family::Ctr, 7200), &p, true, &no_extra);
     }
